@@ -345,10 +345,11 @@ Definition p2_all (slices : list (tensor F)) (w : option (list F)) (A B C : tens
 End MP2data.
 
 (* ---------------------------------------------------------------- PARAFAC2 loop skeleton (line search a la Bro) *)
-(* One outer iteration = projections + a few inner ALS sweeps (update).  On a line-search iteration the code calls
-   line_step with rec_errors[-1] (the error of the PREVIOUS iterate): an accepted jump overwrites rec_errors[-1] with the
-   error of the extrapolated iterate; a rejected jump returns the freshly updated iterate together with that stale
-   value, and no error is computed for it.   recompute_on_reject = false is the code as it is. *)
+(* One outer iteration = projections + a few inner ALS sweeps (update).  On a line-search iteration (since fix 0080ddd) the
+   error of the updated iterate is computed and handed to line_step, which answers the iterate it keeps (extrapolated or
+   updated) TOGETHER with that iterate's error; the value is appended.  legacy = true is the behaviour before the fix:
+   line_step received rec_errors[-1] (the error of the PREVIOUS iterate), an accepted jump overwrote rec_errors[-1], a
+   rejected jump left it untouched and no error was computed for the updated iterate. *)
 Section P2Skeleton.
 Variables (St E : Type).
 Record p2oracle := mkP2 {
@@ -357,18 +358,18 @@ Record p2oracle := mkP2 {
   p2_accept : nat -> bool;
   p2_norm : St -> St;
   p2_stop : nat -> bool }.
-Variables (err : St -> E) (Or : p2oracle) (ls normalize recompute_on_reject : bool).
+Variables (err : St -> E) (Or : p2oracle) (ls normalize legacy : bool).
 Definition set_last (l : list E) (e : E) : list E := removelast l ++ [e].
 Fixpoint p2_loop (n it : nat) (cur : St) (errs : list E) : St * list E :=
   match n with
-  | O => (cur, errs)
+  | 0 => (cur, errs)
   | S n' =>
       let line := ls && Nat.even it && (5 <? it) in
       let upd := p2_update Or it cur in
       let st := if line && p2_accept Or it then p2_jump Or it cur upd else upd in
       let errs1 := if line then
-                     if p2_accept Or it then set_last errs (err st)
-                     else if recompute_on_reject then set_last errs (err st) else errs
+                     if legacy then (if p2_accept Or it then set_last errs (err st) else errs)
+                     else errs ++ [err st]
                    else errs in
       let st' := if normalize then p2_norm Or st else st in
       let errs2 := if line then errs1 else errs1 ++ [err st'] in
@@ -441,10 +442,11 @@ Fixpoint zip3 (f : F -> F -> F -> F) (a b c : list F) : list F :=
 Definition resid_raw (X L : tensor F) : tensor F := mk (shape X) (zip3 (fun x l _ => fsub Op x l) (data X) (data L) (data X)).
 Definition resid_imputed (X L m : tensor F) : tensor F :=
   mk (shape X) (zip3 (fun x l mk_ => fsub Op (fadd Op (fmul Op x mk_) (fmul Op l (fsub Op (f1 Op) mk_))) l) (data X) (data L) (data m)).
-(* the pre-loop callback of parafac under mask + sparsity, the code as it is: the error is computed by error_calc (sparse
-   component of the IMPUTED residual), the sparse component handed to the callback is computed from the UN-imputed tensor *)
+(* the pre-loop callback of parafac under mask + sparsity: the error is computed by error_calc (sparse component of the IMPUTED
+   residual); since fix 835cf01 the sparse component handed to the callback is computed from the same imputed tensor
+   (legacy = true: from the UN-imputed tensor, the behaviour before the fix) *)
 Definition cb0_reported (X L m : tensor F) (card : nat) : F * F :=
   err_explicit Op X (tfun Op L) (Some (sparsify card (resid_imputed X L m))) (Some m).
-Definition cb0_error_of_handed (X L m : tensor F) (card : nat) : F * F :=
-  err_explicit Op X (tfun Op L) (Some (sparsify card (resid_raw X L))) (Some m).
+Definition cb0_error_of_handed (legacy : bool) (X L m : tensor F) (card : nat) : F * F :=
+  err_explicit Op X (tfun Op L) (Some (sparsify card (if legacy then resid_raw X L else resid_imputed X L m))) (Some m).
 End MSparse.
